@@ -132,9 +132,16 @@ func HBuildRead() {
 // HEqualCopy: two values of the same shape with independent leaves: DeepEqual agrees with abstract
 // equality across implementations, and Copy yields an equal node.
 func HEqualCopy() {
-	sh := shapes[nd.Choose("shape", nd.Param("S", len(shapes)))]
-	a := gen.FromShape("a", sh)
-	b := gen.FromShape("b", sh)
+	// same shape with independent leaves, or (beyond the shape list) pairs of different shapes of the same kinds
+	cross := [][2]string{{"i", "u"}, {"u", "i"}, {"[i]", "[u]"}, {"{1i}", "{1u}"}, {"s2", "b2"}, {"[]", "{}"}, {"n", "[]"}}
+	si := nd.Choose("shape", nd.Param("S", len(shapes))+len(cross))
+	var a, b *refval.V
+	if si < nd.Param("S", len(shapes)) {
+		a, b = gen.FromShape("a", shapes[si]), gen.FromShape("b", shapes[si])
+	} else {
+		p := cross[si-nd.Param("S", len(shapes))]
+		a, b = gen.FromShape("a", p[0]), gen.FromShape("b", p[1])
+	}
 	mk := func(which int, v *refval.V) datamodel.Node {
 		if which == 0 {
 			return gen.MustBuild(v)
@@ -162,6 +169,15 @@ func HEqualCopy() {
 		nd.Assert(nodecheck.AbstractEqual(refval.Of(c), a), "the copy denotes the same value")
 		nd.NoPanic("DeepEqual copy", func() { eq = datamodel.DeepEqual(c, x) })
 		nd.Assert(eq, "the copy is DeepEqual to the original")
+		// the same builder, reset, then makes a copy of the other value: both copies denote their sources
+		nb.Reset()
+		var err2 error
+		nd.NoPanic("Copy after Reset", func() { err2 = datamodel.Copy(y, nb) })
+		if err2 == nil {
+			c2 := nb.Build()
+			nd.Assert(nodecheck.AbstractEqual(refval.Of(c2), b), "a copy made with the reset builder denotes its source")
+			nd.Assert(nodecheck.AbstractEqual(refval.Of(c), a), "and the earlier copy still denotes the first value")
+		}
 	}
 	nd.Reach("end")
 }
